@@ -99,6 +99,9 @@ Fixpoint dec (fuel: nat) (tb: list ncls) (t: nty) (v: nv) : option rv :=
                    end
       | TList t' => match v with
                     | VL l => option_map RList (all_some (map (dec fu tb t') l))
+                    | VD [] => Some (RList [])     (* the generated comprehension iterates its input: an empty mapping
+                                                      is an empty iterable; a non-empty one yields its keys (strings),
+                                                      which no dataclass-rooted element type accepts *)
                     | _ => None
                     end
       | TMap t' => match v with
@@ -145,7 +148,7 @@ Proof.
   - destruct v as [z|d|l]; try reflexivity. destruct (nth_error tb i) as [nc|]; [|reflexivity].
     rewrite (obj_ext rd1 rd2 ex1 ex2 (dec rd1 ex1 fu tb) (dec rd2 ex2 fu tb) Hr He (IH tb)). reflexivity.
   - destruct v as [z|d|l]; try apply IH. destruct (Z.eqb z NONEZ); [reflexivity | apply IH].
-  - destruct v as [z|d|l]; try reflexivity. now rewrite (map_ext_eq _ _ l (IH tb t')).
+  - destruct v as [z|d|l]; [reflexivity | now destruct d | now rewrite (map_ext_eq _ _ l (IH tb t'))].
   - destruct v as [z|d|l]; try reflexivity.
     now rewrite (map_ext_eq _ _ d (fun p => IH tb t' (snd p))).
 Qed.
